@@ -29,20 +29,24 @@ NEEDS = {"cmds": ["kvdrv"],
 # getting values out of TLC
 
 
-def tlc_json_lines(out, tag):
-    """PrintT(<<tag, ToJson(x)>>) lines -> list of decoded x."""
+def iter_tlc_json_lines(out, tag):
+    """PrintT(<<tag, ToJson(x)>>) lines -> decoded x, one at a time."""
+    import io
     pre = '<<"%s", ' % tag
-    res = []
-    for line in out.splitlines():
+    for line in io.StringIO(out):
         if not line.startswith(pre):
             continue
+        line = line.rstrip("\n")
         if not line.endswith(">>"):
             raise common.ToolError("truncated %s line in TLC output" % tag)
         try:
-            res.append(json.loads(json.loads(line[len(pre):-2])))
+            yield json.loads(json.loads(line[len(pre):-2]))
         except ValueError as e:
             raise common.ToolError("cannot parse %s line from TLC: %s: %.200s" % (tag, e, line))
-    return res
+
+
+def tlc_json_lines(out, tag):
+    return list(iter_tlc_json_lines(out, tag))
 
 
 def tla_key(s):
@@ -92,7 +96,8 @@ class Graph:
         self.n_edges = 0
         for pre, act, res, post in edges:
             a, b = self.node(pre), self.node(post)
-            self.out.setdefault(a, []).append((act, res, b))
+            # label and result are kept as JSON text (half a million edges in the thorough tier), decoded on use
+            self.out.setdefault(a, []).append((json.dumps(act), json.dumps(res), b))
             self.n_edges += 1
 
     def node(self, st):
@@ -153,7 +158,7 @@ def tours(g, rng, want=None, max_len=60, loops_per_visit=6):
             walk = []
             for p, j in path:
                 act, res, v = g.out[p][j]
-                walk.append((p, act, res, v))
+                walk.append((p, json.loads(act), json.loads(res), v))
                 if p in todo:
                     todo[p].discard(j)
             u = target
@@ -165,13 +170,13 @@ def tours(g, rng, want=None, max_len=60, loops_per_visit=6):
                 took = False
                 for j in sorted(loops)[:loops_per_visit]:
                     act, res, v = es[j]
-                    walk.append((u, act, res, v))
+                    walk.append((u, json.loads(act), json.loads(res), v))
                     mine.discard(j)
                     took = True
                 if moves:
                     j = rng.choice(sorted(moves))
                     act, res, v = es[j]
-                    walk.append((u, act, res, v))
+                    walk.append((u, json.loads(act), json.loads(res), v))
                     mine.discard(j)
                     # observe the stores around a Write / Discard when that is a self-loop of the graph
                     u = v
@@ -185,7 +190,7 @@ def tours(g, rng, want=None, max_len=60, loops_per_visit=6):
                         break
                     j = rng.choice(cand)
                     act, res, v = es[j]
-                    walk.append((u, act, res, v))
+                    walk.append((u, json.loads(act), json.loads(res), v))
                     u = v
             walks.append((start, walk))
             for k in [k for k, s in todo.items() if not s]:
@@ -199,8 +204,10 @@ def observe_around_writes(g, walk):
     'after Write the parent holds the view', 'discard leaves no effect'."""
     def full_iter(u, s):
         for act, res, v in g.out.get(u, []):
-            if v == u and act["op"] == "IterAll" and act["s"] == s and act["st"] == [] and act["en"] == [] and act["asc"]:
-                return (u, act, res, v)
+            if v == u and '"IterAll"' in act:
+                a = json.loads(act)
+                if a["s"] == s and a["st"] == [] and a["en"] == [] and a["asc"]:
+                    return (u, a, json.loads(res), v)
         return None
     res = []
     for (u, act, r, v) in walk:
@@ -593,19 +600,18 @@ def run(prop, tier, seed):
             res = common.run_tlc("CacheKV", cfg, d, workers=WORKERS, timeout=1800)
             common.require_tlc_ok(res, "state graph " + cfg)
             out.add_tlc(res, "CacheKV labelled state graph, " + cfg)
-            edges = tlc_json_lines(res.out, "EDGE")
-            if not edges:
+            keys = tlc_json_lines(res.out[:100000], "KEYS")
+            g = Graph(iter_tlc_json_lines(res.out, "EDGE"), keys[0])
+            res.out = res.out[-5000:]
+            if not g.n_edges:
                 raise common.ToolError("no EDGE lines from " + cfg)
-            keys = tlc_json_lines(res.out, "KEYS")
-            g = Graph(edges, keys[0])
-            del edges
             want = None
             if sz["edge_frac"] < 1.0:
                 rare = {"Write", "Discard", "CacheWrap", "IterOpen", "IterNext", "IterClose"}
                 want = set()
                 for u, es in g.out.items():
                     for j, (act, r, v) in enumerate(es):
-                        if act["op"] in rare and rng.random() < 0.6 or rng.random() < sz["edge_frac"]:
+                        if json.loads(act)["op"] in rare and rng.random() < 0.6 or rng.random() < sz["edge_frac"]:
                             want.add((u, j))
             ws = tours(g, rng, want)
             progs = [program_from_walk(g, s, observe_around_writes(g, w), "%s-%d" % (cfg[3:-4], i), rng)
@@ -688,16 +694,18 @@ def probe_branches(out, d, seed):
     """Vacuity / which case splits are reached: a small simulation of the implementation-level spec
     with Probe = TRUE prints one HIT line per evaluation of a labelled branch of the transcription
     (TLC's -coverage does not terminate on the mutually recursive iterator operators)."""
-    res = common.run_tlc("CacheKVImpl", "MC_CacheKVImpl_probe.cfg", d, simulate="num=25", depth=31, seed=seed,
-                         workers=2, timeout=600)
-    common.require_tlc_ok(res, "branch probe")
-    counts = {}
-    for m in re.finditer(r'<<"HIT", "(\w+)">>', res.out):
-        counts[m.group(1)] = counts.get(m.group(1), 0) + 1
-    ops = {}
-    for h in tlc_json_lines(res.out, "HIST"):
-        for e in h[1:]:
-            ops[e["a"]["op"]] = ops.get(e["a"]["op"], 0) + 1
+    counts, ops = {}, {}
+    for attempt in range(4):       # rare branches (e.g. NextCacheFirst) may need more behaviours: widen before giving up
+        res = common.run_tlc("CacheKVImpl", "MC_CacheKVImpl_probe.cfg", d, simulate="num=%d" % (40 * (attempt + 1)), depth=31,
+                             seed=seed + 1000 * attempt, workers=2, timeout=600)
+        common.require_tlc_ok(res, "branch probe")
+        for m in re.finditer(r'<<"HIT", "(\w+)">>', res.out):
+            counts[m.group(1)] = counts.get(m.group(1), 0) + 1
+        for h in tlc_json_lines(res.out, "HIST"):
+            for e in h[1:]:
+                ops[e["a"]["op"]] = ops.get(e["a"]["op"], 0) + 1
+        if all(counts.get(b) for b in BRANCHES):
+            break
     missing = [b for b in BRANCHES if not counts.get(b)]
     out.notes["spec_branch_probe"] = {"branch_evaluations": counts, "branches_not_taken": missing,
                                       "note": "WriteSkipNil is dead through the public API (Set refuses nil values)"}
